@@ -210,6 +210,9 @@ def _run(ctx):
     ]
     if not quick:
         stages.append(("pebble-general-keep3", "pebble", ["-random", "100", "-len", "40", "-seed", str(ctx.seed + 100), "-keep", "3"], True))
+        # checkpoints fetched through an rsync daemon started by the driver (the path between hosts), with the
+        # trigger of the local-copy finding allowed: rsync unlinks before it writes and deletes extraneous files
+        stages.append(("pebble-rsync", "pebble", ["-rsync", "-rewindfetch", "-random", "20", "-len", "30", "-seed", str(ctx.seed + 90)], True))
         stages.append(("rocksdb-info", "rocksdb", ["-random", "40", "-len", "30", "-seed", seed], False))
     stats = dict(events=0, segments=0, restore=0, ckdump=0, apply=0, fetch=0, ls=0, mismatches=0, info_mismatches=0,
                  classes={}, selftest={}, runs=[])
@@ -267,7 +270,9 @@ def _run(ctx):
         "entries applied as soon as WaitReady returns. It remains an ASSUMPTION for RocksDB (20 ms timer in engine/rockeng.go), "
         "which is only available through a dependency shim and is informational here",
         "the engine's cut itself is not observable: the bnotify event is validated as BackupCut followed by BackupNotify",
-        "checkpoints are fetched through the local-copy path of common.RunFileSync (cp -rp); the rsync path needs a daemon and is not exercised",
+        "checkpoints are fetched through the local-copy path of common.RunFileSync (cp -rp) and, in the thorough tier, through an rsync "
+        "daemon started by the driver (rsync://127.0.0.1:<port>/mod/...); there the checkpoints of one store are taken in different "
+        "wall-clock seconds, because rsync's quick check takes files of equal size and equal whole-second mtime for unchanged",
         "mem and pebble are the deciding engines; RocksDB is only available through a dependency shim and is informational",
         "stores are driven at the node.KVStore level exactly as the apply loop does (Backup / WaitReady / GetResult / "
         "SetLatestSnapIndex / Restore); the raft snapshot file and WAL marker are C06's subject",
